@@ -356,6 +356,24 @@ func report(p *Prog, prop, tier string, seed int, results []*FuncResult, loadT, 
 		}
 		fmt.Printf("VIOLATION property=%s replay=%s%s\n", prop, rp, suffix)
 	}
+	// a function under contract that can no longer be processed (its contract does not fit the code any more, or the
+	// code left the verifiable subset) is undecided: silence would be a vacuous pass
+	for _, fr := range results {
+		if fr.OOS == "" || strings.HasPrefix(fr.OOS, "STALE-CONTRACT") {
+			continue
+		}
+		name := shortKey(fr.Key) + "#verifiable"
+		if f := kf.match(prop, name); f != nil {
+			fmt.Printf("KNOWN-FINDING: property=%s %s %s\n", prop, name, f.What)
+			continue
+		}
+		violations++
+		rp := filepath.Join(verifDir, "replays", prop, sanitizeFile(name)+".json")
+		data, _ := json.MarshalIndent(map[string]any{"property": prop, "obligation": name, "reason": fr.OOS,
+			"explanation": "the function is under contract but its obligations could not be generated: either the contract no longer matches the code (a local or loop named in an invariant is gone) or the code uses a construct/callee outside the verified subset. Nothing about this function is proved on this tree.", "confirmed_on_real_code": false}, "", " ")
+		os.WriteFile(rp, data, 0o644)
+		fmt.Printf("VIOLATION property=%s replay=%s no-failing-input-found\n", prop, rp)
+	}
 	if total == 0 {
 		violations++
 		rp := filepath.Join(verifDir, "replays", prop, "no-obligations.json")
